@@ -7,7 +7,9 @@ package clientinterceptors
 
 import (
 	"context"
+	"errors"
 	"fmt"
+	"io"
 	"testing"
 	"time"
 
@@ -33,8 +35,28 @@ func c01CodeErr(c gcodes.Code) error {
 	return status.Error(c, "c01")
 }
 
+// c01NonStatus: errors that carry no gRPC status. Under gRPC's own definition
+// (status.Code) such an error has code Unknown (a wrapped benign status has either
+// its own code or Unknown), which is not in the statement's failing set; raw
+// context.Canceled is named benign explicitly. Raw context.DeadlineExceeded and
+// wrapped failing statuses are left unasserted (the statement leaves them open).
+type c01PlainErr struct{ msg string }
+
+func (e c01PlainErr) Error() string { return e.msg }
+
+var c01NonStatus = []struct {
+	name string
+	err  error
+}{
+	{"errors.New", errors.New("c01 plain error")},
+	{"custom-error-type", c01PlainErr{"c01 custom error type"}},
+	{"raw-context.Canceled", context.Canceled},
+	{"io.EOF", io.EOF},
+	{"wrapped-NotFound-status", fmt.Errorf("c01 wrap: %w", status.Error(gcodes.NotFound, "c01"))},
+}
+
 func TestVerifC01ClientInterceptorTable(t *testing.T) {
-	m := vk.New(t, "C01", "clientinterceptors.BreakerInterceptor with an invoker answering one gRPC code, one method (= one named breaker) per row, virtual clock frozen: benign code x150 => invoker always runs; failing code x400 => at least one call short-circuited with ErrServiceUnavailable; 10000 mixed benign codes on one method => 0 rejections; non-trivial = row completed (benign) / rejected (failing)")
+	m := vk.New(t, "C01", "clientinterceptors.BreakerInterceptor with an invoker answering one gRPC code, one method (= one named breaker) per row, virtual clock frozen: benign code x150 and each error without a gRPC status (plain, custom type, raw context.Canceled, io.EOF, wrapped benign status) x150 => invoker always runs; failing code x400 => at least one call short-circuited with ErrServiceUnavailable; 10000 mixed benign codes on one method => 0 rejections; non-trivial = row completed (benign) / rejected (failing)")
 	defer m.Done()
 	logx.Disable()
 	stat.SetReporter(nil)
@@ -44,14 +66,15 @@ func TestVerifC01ClientInterceptorTable(t *testing.T) {
 	cc := new(grpc.ClientConn)
 	perBenign := vk.N(150, 2000)
 	perBad := vk.N(400, 4000)
-	call := func(method string, c gcodes.Code) (ran bool, err error) {
+	callErr := func(method string, answer error) (ran bool, err error) {
 		err = BreakerInterceptor(context.Background(), method, nil, nil, cc,
 			func(ctx context.Context, method string, req, reply interface{}, cc *grpc.ClientConn, opts ...grpc.CallOption) error {
 				ran = true
-				return c01CodeErr(c)
+				return answer
 			})
 		return
 	}
+	call := func(method string, c gcodes.Code) (bool, error) { return callErr(method, c01CodeErr(c)) }
 	tag := fmt.Sprintf("%d.%d", vk.Seed(), vk.Seq())
 	var benign []gcodes.Code
 	for c := gcodes.Code(0); c <= gcodes.Unauthenticated; c++ {
@@ -102,11 +125,36 @@ func TestVerifC01ClientInterceptorTable(t *testing.T) {
 		m.Case("failing-"+name, rej > 0)
 		m.Sample(map[string]any{"scenario": fmt.Sprintf("%s x%d through BreakerInterceptor", name, perBad), "short_circuited": rej, "first_at_call": first})
 	}
+	var benignErrs []error
+	for i, row := range c01NonStatus {
+		if c01Failing[status.Code(row.err)] {
+			m.Skip("non-status row " + row.name + ": status.Code maps it to a failing code")
+			continue
+		}
+		benignErrs = append(benignErrs, row.err)
+		method := fmt.Sprintf("/c01.%s/nonstatus%d", tag, i)
+		desc := fmt.Sprintf("case=%d;invoker always answers the non-status error %s", 50+i, row.name)
+		okRow := true
+		for k := 0; k < perBenign; k++ {
+			ran, err := callErr(method, row.err)
+			m.Count("calls_benign_non_status", 1)
+			if !ran {
+				m.Violate("C01:benign:grpc-client:non-status:"+row.name+":rejected", desc, "call #%d short-circuited (%v) after only %s outcomes (gRPC code %s)", k, err, row.name, status.Code(row.err))
+				okRow = false
+				break
+			}
+		}
+		m.Case("benign-nonstatus-"+row.name, okRow)
+	}
 	method := fmt.Sprintf("/c01.%s/mixed", tag)
 	n := vk.N(10000, 200000)
 	for i := 0; i < n; i++ {
 		c := benign[r.Intn(len(benign))]
-		ran, err := call(method, c)
+		answer := c01CodeErr(c)
+		if len(benignErrs) > 0 && r.Intn(4) == 0 {
+			answer = benignErrs[r.Intn(len(benignErrs))]
+		}
+		ran, err := callErr(method, answer)
 		m.Count("calls_benign_mixed", 1)
 		if !ran {
 			m.Violate("C01:benign:grpc-client:mixed:rejected", "case=100;mixed benign codes on one method", "call #%d (%s) short-circuited (%v)", i, c, err)
